@@ -15,7 +15,7 @@ ASSUME = ["rules 4 and 5 are not judged on FindInAll for searches served by a co
           "without an existence check of its parent; the statement is silent)",
           "rule 4 is applied only where the search has '*' at the filtered key in every unfolded form (a filter overlays, it does not intersect)",
           "rule 5 only for a '*' located before any '**' and whose key is not overlaid by the search's own filter", "filters with URL metacharacters are not generated"]
-BUDGET = {"quick": (160, 24), "thorough": (2400, 40)}
+BUDGET = {"quick": (160, 24), "thorough": (6400, 40)}
 NSHARDS = 16
 
 
